@@ -7,13 +7,15 @@
    range over the pool; [good_pool] = distinct pool members have distinct String(). *)
 From Coq Require Import List NArith Bool.
 From GS Require Import Errs LTS Composite CompositeMon CompositeBase CompositeC10 CompositeC11
-     CompositeLocks CompositeLive CompositeC09 CompositeProgress CompositeExact.
+     CompositeLocks CompositeLive CompositeC09 CompositeProgress CompositeExact CompositeMeasure
+     CompositeTrace CompositeLink2.
 Import ListNotations.
 
 (* C09_live (delivered as no-stuck-state, DESIGN.md section 9): for the repaired code (composite
-   82de565, lifecycle b0569e6) and children that behave like the bundled runnables (Run returns once
-   signalled or cancelled; Stop either non-blocking or blocking until the Run cycle it targeted has
-   returned), in EVERY reachable state of every guarded schedule - any pool, any reload history, any
+   82de565, lifecycle b0569e6) and children whose Run returns once signalled or cancelled
+   ([good_children]: like the bundled runnables, or earlier and with any result - a failure included;
+   only a Run that never returns is excluded; Stop either non-blocking or blocking until the Run
+   cycle it targeted has returned), in EVERY reachable state of every guarded schedule - any pool, any reload history, any
    number of concurrent Reload()/Stop() callers, any interleaving - in which Run() has been called and
    some Stop()/Reload() caller has not returned (or Run() is past its select), a label other than a
    new API call / cancellation / observation is enabled.  No shape is excluded. *)
@@ -21,7 +23,7 @@ Theorem C09_live : forall P s,
   fix_c09 P = true -> fix_lc P = true -> good_pool P -> good_children P ->
   greach P s -> runt s <> TIdle -> pending s ->
   exists l s', env_label l = false /\ step P s l = Some s'.
-Proof. exact no_stuck_state_lc. Qed.
+Proof. exact no_stuck_state_lc_env. Qed.
 
 (* with the repaired lifecycle a blocking child Stop() is never overtaken: whenever it is still
    waiting, the child's stop signal is in place *)
@@ -36,7 +38,7 @@ Theorem C09_live_legacy_lifecycle : forall P s,
   fix_c09 P = true -> good_pool P -> good_children P ->
   greach P s -> ~ overtaken P s -> runt s <> TIdle -> pending s ->
   exists l s', env_label l = false /\ step P s l = Some s'.
-Proof. exact no_stuck_state. Qed.
+Proof. exact no_stuck_state_env. Qed.
 
 (* ... and with fix_lc P = false that shape is reachable and stuck: a Reload() caller is pending and
    no label other than new API calls / cancellation / observations is enabled *)
@@ -47,7 +49,7 @@ Theorem C09_overtaken_is_stuck_legacy : exists P s,
 Proof.
   exists ov_params, ov_st. split; [reflexivity|]. split; [reflexivity|].
   split; [repeat constructor; cbn; intuition discriminate|].
-  split; [intros c [<-|[<-|[]]]; reflexivity|].
+  split; [intros c [<-|[<-|[]]]; left; reflexivity|].
   split; [exact ov_reach|]. split; [exact ov_overtaken|].
   split; [discriminate|]. split; [|exact ov_stuck].
   right. right. exists 1. eexists. split; [vm_compute; reflexivity|discriminate].
@@ -90,9 +92,9 @@ Proof. exact all_finished_before_reboot. Qed.
 
 (* ... and right after every boot exactly one goroutine per entry, in entry order *)
 Theorem C09_exact_at_boot : forall P s o s',
-  K_gen s -> step P s (LBootLaunch o) = Some s' ->
+  reach P s -> step P s (LBootLaunch o) = Some s' ->
   map k_child (cur_kids s') = ids (entries_of s) /\ entries_of s' = entries_of s.
-Proof. exact boot_launch_exact. Qed.
+Proof. exact boot_launch_exact_reach. Qed.
 
 (* every Stop worker of stopAllRunnables addresses a child that has a goroutine (no Stop() on a
    child that nobody will ever run: the F8 shape is gone), repaired code *)
@@ -101,9 +103,14 @@ Theorem C09_stop_targets_launched : forall P s,
   forall w, In w (workers s) -> has_kid (w_child w) s = true.
 Proof. intros P s Hf Hp Hr. exact (proj2 (g_kids P s (Gall_greach P s Hf Hp Hr))). Qed.
 
-(* C09_none_survive: whenever Run() has executed its deferred calls (after Stop(), cancellation,
-   a child failure or a failed reload, under every interleaving) its context - the parent of every
-   child context ever created - is cancelled and Stop() callers are released *)
+(* C09_none_survive, as far as it is a state fact: whenever Run() has executed its deferred calls
+   (after Stop(), cancellation, a child failure or a failed reload, under every interleaving) its
+   context - the parent of every child context ever created - is cancelled and Stop() callers are
+   released.  This is what the LRunExit step establishes and nothing more: a child may still be
+   inside its Run at that moment (when the transition to Running was refused after the boot, or when
+   a Reload() that raced with Stop() boots afterwards); such a child can then always return
+   (C09_cancelled_child_exits, C18_comp_no_blocked_leftover), and after a teardown that went through
+   stopAllRunnables with no later boot no goroutine is left at all (C18_comp_clean). *)
 Theorem C09_none_survive : forall P s, reach P s ->
   returned (runt s) = true -> rctx s = true /\ lc_done s = true.
 Proof. exact none_survive. Qed.
@@ -200,7 +207,7 @@ Proof.
   eexists. split; [vm_compute; reflexivity|]. split.
   - repeat constructor.
   - split; [repeat constructor; cbn; intuition discriminate|].
-    split; [intros c [<-|[<-|[]]]; reflexivity|]. vm_compute. repeat split.
+    split; [intros c [<-|[<-|[]]]; left; reflexivity|]. vm_compute. repeat split.
 Qed.
 
 (* the state after the first 21 labels is the former deadlock point: Run() is waiting for reloadMu
@@ -213,3 +220,217 @@ Proof.
   eexists. split; [vm_compute; reflexivity|]. split; [reflexivity|]. split; [reflexivity|].
   split; [left; reflexivity|]. eexists. vm_compute. reflexivity.
 Qed.
+
+(* ---------------------------------------------------------------------------------------------
+   Termination measure (proofs/CompositeMeasure.v).  [mu s] is a natural number: Run()'s program
+   point + 3 per goroutine/Stop worker it has yet to create + the ranks of the child goroutines, Stop
+   workers, Stop() callers and Reload() callers.  SYSTEM labels (is_system l = true) are the library's
+   own steps and the steps a child owes under its contract (Run returning nil/a cancellation error,
+   Stop and ReloadWithConfig returning); ENVIRONMENT labels are the new API calls LRunCall /
+   LReloadCall / LStopApi, LCancel, the observation LState, the RETURN of the configuration callback
+   LCb (its value is chosen by the user and has unbounded size) and a child's Run returning a
+   non-cancellation error (never owed).
+   --------------------------------------------------------------------------------------------- *)
+
+(* every system step strictly decreases the measure - in every reachable state of every variant,
+   during a teardown or not *)
+Theorem C09_measure_decreases : forall P s l s',
+  reach P s -> step P s l = Some s' -> is_system l = true -> mu s' < mu s.
+Proof. exact mu_decreases. Qed.
+
+(* an environment step raises it by at most ecost B = 8 + 12*B, B a bound on the number of entries
+   of the configurations in play (the stored one, those of the reloads in progress, the one the
+   callback returns) ... *)
+Theorem C09_measure_env : forall P B s l s',
+  sizes_le B s -> label_le B l -> step P s l = Some s' -> is_system l = false ->
+  mu s' <= mu s + ecost B.
+Proof. exact mu_env_step. Qed.
+
+(* ... and such a bound is kept by every step whose callback value respects it *)
+Theorem C09_sizes_kept : forall P B s l s',
+  sizes_le B s -> label_le B l -> step P s l = Some s' -> sizes_le B s'.
+Proof. exact sizes_le_step. Qed.
+
+(* hence: the system steps of any execution from a reachable state are bounded by the measure of its
+   first state plus ecost B for every environment step in it *)
+Theorem C09_teardown_bounded : forall P B ls s s',
+  reach P s -> sizes_le B s -> Forall (label_le B) ls ->
+  run (step P) s ls = Some s' ->
+  count_sys ls + mu s' <= mu s + ecost B * count_env ls.
+Proof. exact system_steps_bounded. Qed.
+
+(* a state in which neither a system step nor the return of a callback is possible, after the
+   teardown was requested (a Stop() call exists, the parent context is cancelled, or Run() took a
+   child failure): Run() has returned and so has every Stop() and Reload() call *)
+Theorem C09_stuck_returned : forall P s,
+  fix_c09 P = true -> fix_lc P = true -> good_pool P -> good_children P ->
+  greach P s -> runt s <> TIdle -> teardown s ->
+  ~ (exists l s', is_system l || is_cb l = true /\ step P s l = Some s') ->
+  (exists r, runt s = TDone r) /\
+  (forall k p, nth_error (stoppers s) k = Some p -> p = SDone) /\
+  (forall k r, nth_error (reloaders s) k = Some r -> r_pc r = RDone).
+Proof. exact stuck_returned. Qed.
+
+(* C09_maximal_execution_returns: once the teardown was requested, an execution of system steps
+   that cannot be extended by a system step has at most [mu s] steps, and it ends with Run() and
+   every Stop()/Reload() call returned - unless a configuration callback has been called and has not
+   returned (cb_out: Run() in its initial load, or a Reload() holding reloadMu) *)
+Theorem C09_maximal_execution_returns : forall P s ls s',
+  fix_c09 P = true -> fix_lc P = true -> good_pool P -> good_children P ->
+  greach P s -> runt s <> TIdle -> teardown s ->
+  Forall (fun l => is_system l = true) ls ->
+  run (step P) s ls = Some s' ->
+  (forall l s'', step P s' l = Some s'' -> is_system l = false) ->
+  length ls <= mu s /\ (cb_out s' = true \/ all_returned s').
+Proof. exact maximal_execution_returns. Qed.
+
+(* with the callbacks returning (values over the pool): an execution that cannot be extended by a
+   system step or a callback return ends with everything returned *)
+Theorem C09_maximal_execution_returns_cb : forall P s ls s',
+  fix_c09 P = true -> fix_lc P = true -> good_pool P -> good_children P ->
+  greach P s -> runt s <> TIdle -> teardown s ->
+  Forall (good_label P) ls ->
+  run (step P) s ls = Some s' ->
+  (forall l s'', step P s' l = Some s'' -> is_system l || is_cb l = false) ->
+  all_returned s'.
+Proof. exact maximal_execution_returns_cb. Qed.
+
+Print Assumptions C09_measure_decreases.
+Print Assumptions C09_measure_env.
+Print Assumptions C09_sizes_kept.
+Print Assumptions C09_teardown_bounded.
+Print Assumptions C09_stuck_returned.
+Print Assumptions C09_maximal_execution_returns.
+Print Assumptions C09_maximal_execution_returns_cb.
+
+(* non-vacuity: in the schedule above Stop() is called after 18 labels; the remaining 24 labels are
+   system steps, the measure goes from 27 to 0 and the run ends with everything returned *)
+Example C09_measure_nonvacuous : exists s s',
+  run (step cur_params) init (firstn 19 ex_sched) = Some s /\
+  run (step cur_params) s (skipn 19 ex_sched) = Some s' /\
+  forallb is_system (skipn 19 ex_sched) = true /\ length (skipn 19 ex_sched) = 24 /\
+  stoppers s = [SCalled] /\ runt s = TSelect /\ sizes_le 2 s /\
+  mu s = 27 /\ mu s' = 0 /\ cb_out s' = false /\
+  runt s' = TDone internal_err /\ stoppers s' = [SDone] /\ map r_pc (reloaders s') = [RDone].
+Proof.
+  eexists. eexists. split; [vm_compute; reflexivity|]. split; [vm_compute; reflexivity|].
+  vm_compute. repeat split; repeat constructor.
+Qed.
+
+(* all hypotheses of C09_live at once ON A SCHEDULE WITH A CHILD FAILURE (good_children admits
+   children that fail: child 1 may return at any time): child 1 has failed, Run() has taken the
+   failure, a Reload() caller has not returned - and a step is enabled *)
+Definition lf_params (lc : bool) : params :=
+  mkParams [mkSpec 0 UntilRunDone OnSignal RWC; mkSpec 1 UntilRunDone Free RWC] true true true lc.
+Definition lf_sched : list label :=
+  [LRunCall; LRunBegin; LBootLock ORun; LCb ORun (CbSome [(0, 0); (1, 0)]%N); LBootLaunch ORun; LToRunning;
+   LKRun 0 0%N; LKRun 1 1%N; LReloadCall 0;
+   LKExit 1 1%N (Some (Errs.Leaf 7%N)); LKSend 1; LSelErr].
+
+Example C09_live_nonvacuous_failure : exists s,
+  fix_c09 (lf_params true) = true /\ fix_lc (lf_params true) = true /\
+  good_pool (lf_params true) /\ good_children (lf_params true) /\
+  greach (lf_params true) s /\ runt s <> TIdle /\ pending s /\
+  took s = Some (Wrap (Errs.Leaf 7%N)) /\ map r_pc (reloaders s) = [RCalled] /\
+  exists s', step (lf_params true) s LTearLock = Some s'.
+Proof.
+  eexists. split; [reflexivity|]. split; [reflexivity|].
+  split; [repeat constructor; cbn; intuition discriminate|].
+  split; [intros c [<-|[<-|[]]]; [left|right]; reflexivity|].
+  split; [exists lf_sched; split; [repeat constructor|vm_compute; reflexivity]|].
+  split; [discriminate|]. split; [left; reflexivity|]. split; [reflexivity|]. split; [reflexivity|].
+  eexists. vm_compute. reflexivity.
+Qed.
+
+(* the same for C09_live_legacy_lifecycle (fix_lc P = false): no Stop worker exists, so no Stop() is
+   overtaken *)
+Example C09_live_legacy_lifecycle_nonvacuous : exists s,
+  fix_c09 (lf_params false) = true /\ good_pool (lf_params false) /\ good_children (lf_params false) /\
+  greach (lf_params false) s /\ ~ overtaken (lf_params false) s /\ runt s <> TIdle /\ pending s /\
+  took s = Some (Wrap (Errs.Leaf 7%N)).
+Proof.
+  eexists. split; [reflexivity|].
+  split; [repeat constructor; cbn; intuition discriminate|].
+  split; [intros c [<-|[<-|[]]]; [left|right]; reflexivity|].
+  split; [exists lf_sched; split; [repeat constructor|vm_compute; reflexivity]|].
+  split; [intros (j & w & i & k & Hw & _); destruct j; discriminate Hw|].
+  split; [discriminate|]. split; [left; reflexivity|]. reflexivity.
+Qed.
+
+(* ---------------------------------------------------------------------------------------------
+   Monitor links (proofs/CompositeTrace.v, CompositeLink2.v).
+   c09-clause21 - "an API call is still blocked at final quiescence" - is FALSE of arbitrary model
+   traces (they are prefix closed: C09_monitor_clause21_prefix_witness); it is a statement about
+   complete runs, and with the measure it is a theorem about every MAXIMAL schedule: one whose final
+   state allows no system step and no callback return - the harness' final quiescence.
+   --------------------------------------------------------------------------------------------- *)
+
+(* the trace and the state agree on the API calls made and returned (every schedule) *)
+Theorem C09_trace_state : forall P ls s, run (step P) init ls = Some s -> T_all (obs_trace obs ls) s.
+Proof. exact trace_state. Qed.
+
+(* on every maximal schedule in which Run() was called and Stop()/cancel/a failing child exit
+   occurred, no API call of the trace is without its return ... *)
+Theorem C09_monitor_clause21_maximal : forall P ls s,
+  fix_c09 P = true -> fix_lc P = true -> good_pool P -> good_children P ->
+  Forall (good_label P) ls -> run (step P) init ls = Some s -> ~ prog P s ->
+  existsb (is_call OpRun) (obs_trace obs ls) = true ->
+  existsb is_stop_or_cancel (obs_trace obs ls) || existsb is_fail_exit (obs_trace obs ls) = true ->
+  blocked_of (obs_trace obs ls) = 0.
+Proof. exact c09_clause21_link. Qed.
+
+(* ... so the monitor, given that number, never answers 21 *)
+Theorem C09_monitor_never_clause21 : forall P ls s lives,
+  fix_c09 P = true -> fix_lc P = true -> good_pool P -> good_children P ->
+  Forall (good_label P) ls -> run (step P) init ls = Some s -> ~ prog P s ->
+  existsb (is_call OpRun) (obs_trace obs ls) = true ->
+  existsb is_stop_or_cancel (obs_trace obs ls) || existsb is_fail_exit (obs_trace obs ls) = true ->
+  C09_holdsb P (obs_trace obs ls) (blocked_of (obs_trace obs ls)) lives <> 21%N.
+Proof. exact c09_holdsb_not_21. Qed.
+
+Print Assumptions C09_trace_state.
+Print Assumptions C09_monitor_clause21_maximal.
+Print Assumptions C09_monitor_never_clause21.
+
+(* all hypotheses at once: ex_sched is maximal (measure 0, no callback outstanding) *)
+Example C09_monitor_clause21_nonvacuous : exists s,
+  fix_c09 cur_params = true /\ fix_lc cur_params = true /\ good_pool cur_params /\ good_children cur_params /\
+  Forall (good_label cur_params) ex_sched /\ run (step cur_params) init ex_sched = Some s /\
+  ~ prog cur_params s /\
+  existsb (is_call OpRun) (obs_trace obs ex_sched) = true /\
+  existsb is_stop_or_cancel (obs_trace obs ex_sched) = true /\
+  blocked_of (obs_trace obs ex_sched) = 0.
+Proof.
+  assert (Hg : exists s, run (step cur_params) init ex_sched = Some s) by (eexists; vm_compute; reflexivity).
+  destruct Hg as [s Hs]. exists s.
+  assert (Hr : reach cur_params s) by (exists ex_sched; exact Hs).
+  split; [reflexivity|]. split; [reflexivity|].
+  split; [repeat constructor; cbn; intuition discriminate|].
+  split; [intros c [<-|[<-|[]]]; left; reflexivity|].
+  split; [repeat constructor|]. split; [exact Hs|].
+  vm_compute in Hs. injection Hs as <-.
+  split; [apply mu_zero_stuck; [exact Hr|reflexivity|reflexivity]|].
+  vm_compute. auto.
+Qed.
+
+(* FINDING about the monitors (not about the code).  On prefixes the clause fails: right after the
+   calls nothing has returned ... *)
+Example C09_monitor_clause21_prefix_witness : exists s,
+  run (step cur_params) init [LRunCall; LStopApi 0] = Some s /\
+  blocked_of (obs_trace obs [LRunCall; LStopApi 0]) = 2.
+Proof. eexists. split; vm_compute; reflexivity. Qed.
+
+(* ... and c09-clause20 ("at a Running observation with no reload in flight the running children are
+   the configured ones") is FALSE of the unrestricted model, whose LState observation may be taken at
+   any moment: here right after the boot, before the child goroutine has called Run.  The clause is
+   meant for observations made at QUIESCENCE (the harness waits until no goroutine can move); no
+   theorem links it to the model yet - its state-level counterpart is C09_exact *)
+Example C09_monitor_clause20_needs_quiescence : exists s,
+  run (step cur_params) init
+      [LRunCall; LRunBegin; LBootLock ORun; LCb ORun (CbSome [(0, 0)]%N); LBootLaunch ORun; LToRunning;
+       LState FRunning] = Some s /\
+  map k_pc (kids s) = [KLaunched] /\
+  C09_holdsb cur_params
+    (obs_trace obs [LRunCall; LRunBegin; LBootLock ORun; LCb ORun (CbSome [(0, 0)]%N); LBootLaunch ORun;
+                    LToRunning; LState FRunning]) 0 [] = 20%N.
+Proof. eexists. split; [vm_compute; reflexivity|]. split; vm_compute; reflexivity. Qed.
